@@ -329,12 +329,14 @@ def oracle_stage(ctx: Ctx):
 
 def run(ctx: Ctx):
     from ..translate import gen
-    gen.regenerate(ctx, ["FockTables", "CoreCoreGen", "RootGen"])
+    gen.regenerate(ctx, ["FockTables", "CoreCoreGen", "RootGen", "Constants"])
     leanproj.check_theorems(ctx, MODULE, THEOREMS)
     from .registry import THEOREMS_CORECORETIE
     # translator tie: the core-core energy of the source is the model's (= the published MNDO / AM1 / PM3 core term)
     leanproj.check_theorems(ctx, "PyseqmVerif.Properties.CoreCoreTie", [t for t in THEOREMS_CORECORETIE if "enuc" in t or "gaussSummand" in t or "spec" in t])
-    from .registry import THEOREMS_ROOTTIE
+    from .registry import THEOREMS_CONSTTIE, THEOREMS_ROOTTIE
+    # constants tie: the overlap cut-off of the source lies beyond the 15 A range of the property (no resonance term dropped inside it)
+    leanproj.check_theorems(ctx, "PyseqmVerif.Properties.ConstTie", THEOREMS_CONSTTIE)
     # translator tie: the additive terms are five secant steps on the residual functions whose roots C06 characterises
     leanproj.check_theorems(ctx, "PyseqmVerif.Properties.RootTie", [t for t in THEOREMS_ROOTTIE if "Step" in t or "Forward" in t or t.endswith("trips")])
     from .registry import THEOREMS_C06B
